@@ -66,6 +66,9 @@ impl<const LIMBS: usize> Uint<LIMBS> {
         // The inverse exists either if `k` is 0 or if `self` is odd.
         let is_some = ConstChoice::from_u32_nonzero(k).not().or(self.is_odd());
 
+        // Only the low `BITS` bits of the inverse are representable (same result as `inv_mod2k`).
+        let k = if k > Self::BITS { Self::BITS } else { k };
+
         while i < k {
             // X_i = b_i mod 2
             let x_i = b.limbs[0].0 & 1;
